@@ -7,10 +7,11 @@ T = '''#! unit: %(lc)s.ctor
 #! mode: proof
 #! entry: h_ctor
 #! enforce: %(cls)s_ctor
-#! replace: IMS_ctor IMS_skip IMS_read_obj IMS_read_uint8_t IMS_read_uint32_t IMS_pointer IMS_size IMS_bool PDU_set_inner Internals_pdu_from_flag Internals_pdu_from_flag4 Internals_pdu_from_dlt_flag %(news)s
+#! replace: IMS_ctor IMS_skip IMS_can_read IMS_read_obj IMS_read_buf IMS_read_vec IMS_read_uint8_t IMS_read_uint16_t IMS_read_uint32_t IMS_read_be_uint16_t IMS_read_be_uint32_t IMS_read_le_uint16_t IMS_read_le_uint32_t IMS_pointer IMS_size IMS_size_set IMS_bool PDU_set_inner tins_add_option_range tins_add_option_sized tins_add_option_empty %(xreplace)s Internals_pdu_from_flag Internals_pdu_from_flag4 Internals_pdu_from_dlt_flag %(news)s
 #! anchors: %(cls)s::%(cls)s(const uint8_t*, uint32_t) (%(src)s)%(anch)s
 #! assumed: cursor methods by their contracts (cursor.* units); construction of the next layer by a stub contract (the range handed over must be readable)
 #! replay: c01_parse
+%(hdrx)s
 //@ include lib/endian.h
 //@ include lib/pdu.h
 //@ include lib/ims.h
@@ -22,12 +23,14 @@ __CPROVER_assigns()
 __CPROVER_ensures(__CPROVER_return_value == NULL || __CPROVER_is_fresh(__CPROVER_return_value, sizeof(PDU)))
 ;
 %(newdecls)s
+%(predecl)s
 %(structs)s
 typedef struct { PDU_BASE; %(members)s } %(cls)s;
 %(funcs)s
-//@ func %(src)s %(cls)s::%(cls)s match "const uint8_t* buffer, uint32_t total_sz"
-sig: void %(cls)s_ctor(%(cls)s* this, const uint8_t* buffer, uint32_t total_sz)
+//@ func %(src)s %(cls)s::%(cls)s match "%(ctor_match)s"
+sig: void %(cls)s_ctor(%(cls)s* this, const uint8_t* buffer, uint32_t total_sz%(extra_params)s)
 class: %(cls)s %(hdr)s
+%(memberlist)s
 %(inits)s
 %(rules)s
 contract:
@@ -35,11 +38,12 @@ __CPROVER_requires(total_sz <= 65535 && __CPROVER_is_fresh(buffer, total_sz))
 __CPROVER_requires(__CPROVER_is_fresh(this, sizeof(*this)))
 __CPROVER_assigns(*this)
 end
+%(loops)s
 %(mutant)s
 //@ endfunc
 void h_ctor(void) {
-  %(cls)s* t; const uint8_t* b; uint32_t n;
-  %(cls)s_ctor(t, b, n);
+  %(cls)s* t; const uint8_t* b; uint32_t n; %(extra_decl)s
+  %(cls)s_ctor(t, b, n%(extra_args)s);
   TINS_REACH("post");
 }
 '''
@@ -78,17 +82,64 @@ TABLE = [
 ]
 
 
+STREAM_INV = 'loop %d:\n__CPROVER_assigns(stream%s)\n__CPROVER_loop_invariant(__CPROVER_same_object(stream.buffer_, buffer) && __CPROVER_POINTER_OFFSET(stream.buffer_) >= 0 && __CPROVER_POINTER_OFFSET(stream.buffer_) <= total_sz && stream.size_ <= total_sz && __CPROVER_POINTER_OFFSET(stream.buffer_) + stream.size_ <= total_sz)\n__CPROVER_decreases(stream.size_)\nend'
+
+
+def stream_loop(n=0, extra=''):
+    return STREAM_INV % (n, extra)
+
+
+TABLE += [
+ dict(cls='DHCPv6', src='src/dhcpv6.cpp', hdr='include/tins/dhcpv6.h', structs=[], members='uint8_t header_data_[4]; uint32_t options_size_; uint8_t link_addr_[16]; uint8_t peer_addr_[16];',
+      inits='inits: lower', predecl='typedef int MessageType; enum { RELAY_FORWARD = 12, RELAY_REPLY = 13 }; /* DHCPv6::MessageType values used by the constructor (RFC 8415) */',
+      xfuncs='//@ func include/tins/dhcpv6.h DHCPv6::msg_type match "msg_type() const"\nsig: static MessageType DHCPv6_msg_type(const DHCPv6* this)\nclass: DHCPv6 include/tins/dhcpv6.h\n//@ endfunc\n//@ func src/dhcpv6.cpp DHCPv6::is_relay_message\nsig: static _Bool DHCPv6_is_relay_message(const DHCPv6* this)\nclass: DHCPv6 include/tins/dhcpv6.h\n//@ endfunc',
+      rules='rule: DHCPv6_add_option\\(this, option\\(opt, ==> tins_add_option_range(opt,\nrule: \\+ data_size\\)\\); ==> + data_size);',
+      loops=stream_loop(), mutant='mutant: if \\(!stream\\.can_read\\(data_size\\)\\) \\{\\s*throw malformed_packet\\(\\);\\s*\\} ==> '),
+ dict(cls='BootP', src='src/bootp.cpp', hdr='include/tins/bootp.h', structs=['bootp_header'], members='bootp_header bootp_;',
+      rules='rule: IMS_read_buf\\(&stream, this->vend_, vend_field_size\\) ==> IMS_read_vec(&stream, vend_field_size)',
+      ctor_match='const uint8_t* buffer, uint32_t total_sz, uint32_t vend_field_size', extra_params=', uint32_t vend_field_size', extra_args=', v',
+      extra_decl='uint32_t v;', inits='rule?: NOTHING ==> NOTHING'),
+ dict(cls='PPPoE', src='src/pppoe.cpp', hdr='include/tins/pppoe.h', structs=['pppoe_header'], members='pppoe_header header_; uint32_t tags_size_;', news=['RawPDU'],
+      inits='inits: lower', predecl='typedef int TagTypes;', funcs=[('payload_length', 'uint16_t'), ('code', 'uint8_t')],
+      rules='rule: PPPoE_add_tag\\(this, tag\\(opt_type, opt_len, IMS_pointer\\(&stream\\)\\)\\); ==> tins_add_option_sized(opt_type, opt_len, IMS_pointer(&stream));',
+      loops=stream_loop(), mutant='mutant: stream\\.size\\(\\) < payload_length\\(\\) \\? stream\\.size\\(\\) ==> stream.size() < payload_length() ? payload_length()'),
+]
+
+
+
+TABLE += [
+ dict(cls='IPSecAH', src='src/ipsec.cpp', hdr='include/tins/ipsec.h', structs=['ipsec_header'], members='ipsec_header header_;',
+      funcs=[('next_header', 'uint8_t'), ('length', 'uint8_t')],
+      rules='rule: IMS_read_buf\\(&stream, this->icv_, icv_length\\) ==> IMS_read_vec(&stream, icv_length)',
+      mutant='mutant: stream\\.size\\(\\),\\s*true ==> stream.size() + 1, true'),
+ dict(cls='IPSecESP', src='src/ipsec.cpp', hdr='include/tins/ipsec.h', structs=[], xstructs='//@ struct include/tins/ipsec.h ipsec_header as ipsecesp_header nth 1', members='ipsecesp_header header_;', news=['RawPDU']),
+ dict(cls='RTP', src='src/rtp.cpp', hdr='include/tins/rtp.h', structs=['rtp_header', 'rtp_extension_header'], members='rtp_header header_; rtp_extension_header ext_header_; uint8_t padding_size_;',
+      memberlist='members: header_ ext_header_ padding_size_ csrc_ids_ ext_data_',
+      funcs=[('csrc_count', 'uint8_t'), ('extension_bit', 'uint8_t'), ('padding_bit', 'uint8_t'), ('padding_size', 'uint8_t'), ('extension_length', 'uint16_t')],
+      rules='rule: small_uint<4> csrc_count_ ==> uint8_t csrc_count_\nrule: this->csrc_ids_\\.push_back\\(csrc_id\\); ==> (void)csrc_id;\nrule: this->ext_data_\\.push_back\\(data\\); ==> (void)data;',
+      loops='loop 0:\n__CPROVER_assigns(i, stream)\n__CPROVER_loop_invariant(i <= csrc_count_ && __CPROVER_same_object(stream.buffer_, buffer) && __CPROVER_POINTER_OFFSET(stream.buffer_) >= 0 && __CPROVER_POINTER_OFFSET(stream.buffer_) <= total_sz && stream.size_ <= total_sz && __CPROVER_POINTER_OFFSET(stream.buffer_) + stream.size_ <= total_sz)\n__CPROVER_decreases(csrc_count_ - i)\nend\nloop 1:\n__CPROVER_assigns(i, stream)\n__CPROVER_loop_invariant(i <= 65535 && __CPROVER_same_object(stream.buffer_, buffer) && __CPROVER_POINTER_OFFSET(stream.buffer_) >= 0 && __CPROVER_POINTER_OFFSET(stream.buffer_) <= total_sz && stream.size_ <= total_sz && __CPROVER_POINTER_OFFSET(stream.buffer_) + stream.size_ <= total_sz)\n__CPROVER_decreases(65536 - i)\nend',
+      mutant='mutant: if \\(padding_size\\(\\) > data_size\\) \\{\\s*throw malformed_packet\\(\\);\\s*\\} ==> '),
+ dict(cls='PPI', src='src/ppi.cpp', hdr='include/tins/ppi.h', structs=['ppi_header'], members='ppi_header header_;', news=['Dot3', 'EthernetII', 'RadioTap', 'Loopback', 'SLL'],
+      funcs=[('length', 'uint16_t'), ('dlt', 'uint32_t')], xreplace='Internals_is_dot3 PPI_parse_80211',
+      predecl='enum { DLT_NULL = 0, DLT_EN10MB = 1, DLT_IEEE802_11 = 105, DLT_LINUX_SLL = 113, DLT_IEEE802_11_RADIO = 127 }; /* libpcap link types (pcap/dlt.h) */\n_Bool Internals_is_dot3(const uint8_t* ptr, size_t sz)\n__CPROVER_requires(__CPROVER_r_ok(ptr, sz))\n__CPROVER_assigns()\n;\nstruct PPI_s; void PPI_parse_80211(struct PPI_s* this, const uint8_t* buffer, uint32_t total_sz)\n__CPROVER_requires(__CPROVER_r_ok(buffer, total_sz))\n__CPROVER_assigns()\n;',
+      rules='rule: IMS_read_buf\\(&stream, this->data_, options_length\\) ==> IMS_read_vec(&stream, options_length)\nrule: PPI_parse_80211\\(this, ==> PPI_parse_80211((struct PPI_s*)this,',
+      mutant='mutant: new Dot3\\(stream\\.pointer\\(\\), stream\\.size\\(\\)\\) ==> new Dot3(stream.pointer(), stream.size() + 2)'),
+]
+
+
 def generate(outdir, tier):
     paths = []
     for e in TABLE:
         cls = e['cls']
         d = dict(cls=cls, lc=cls.lower(), src=e['src'], hdr=e['hdr'], members=e['members'],
-                 structs='\n'.join('//@ struct %s %s' % (e['hdr'], s) for s in e['structs']),
+                 structs='\n'.join('//@ struct %s %s' % (e['hdr'], s) for s in e['structs']) + e.get('xstructs', ''),
                  news=' '.join('new_' + n for n in e.get('news', []) if n != 'RawPDU') + (' new_RawPDU' if 'RawPDU' in e.get('news', []) else ''),
                  newdecls='\n'.join(NEW % n for n in e.get('news', []) if n != 'RawPDU'),
-                 funcs='\n'.join(getter(cls, e['hdr'], n, r) for n, r in e.get('funcs', [])),
+                 funcs='\n'.join(getter(cls, e['hdr'], n, r) for n, r in e.get('funcs', [])) + '\n' + e.get('xfuncs', ''),
                  anch=''.join(', %s::%s' % (cls, n) for n, r in e.get('funcs', [])),
-                 rules=e.get('rules', ''), inits=e.get('inits', ''), mutant=e.get('mutant', ''))
+                 rules=e.get('rules', ''), inits=e.get('inits', ''), mutant=e.get('mutant', ''), xreplace=e.get('xreplace', ''),
+                 predecl=e.get('predecl', ''), loops=e.get('loops', ''), hdrx=e.get('hdrx', ''), memberlist=e.get('memberlist', ''),
+                 ctor_match=e.get('ctor_match', 'const uint8_t* buffer, uint32_t total_sz'), extra_params=e.get('extra_params', ''), extra_args=e.get('extra_args', ''), extra_decl=e.get('extra_decl', ''))
         p = os.path.join(outdir, 'ctor_%s.unit' % cls)
         with open(p, 'w') as f:
             f.write(T % d)
